@@ -193,6 +193,11 @@ def oracles(cfgs, sq, stats):
                         bad("C20_budget", k, "budget error although the budget %d is not exhausted (total %d excluded %d)" % (pre["max"], pre["total"], pre["excl"]))
                     nonex = {n: v for n, v in pre["sleep"].items() if n not in sq.excl}
                     m = max(list(nonex.values()) + [0])
+                    if m <= 0:
+                        anon = [cfgs[x]["err"] for x in pre["cfgs"] if cfgs[x]["name"] == 0][:1]
+                        want = "cfgerr:%d" % anon[0] if anon else "orig"
+                        if res != want:
+                            bad("C20_longest", k, "budget exhausted with no positive non-excluded sleep: returned %s, expected %s" % (res, want), "longest_kind_wrong")
                     if m > 0:
                         cands = set()
                         for n, v in nonex.items():
@@ -211,7 +216,7 @@ def oracles(cfgs, sq, stats):
                 if not (s["total"] - s["excl"] < s["max"] + capmax and s["excl"] < max(L, s["max"]) + capmax and 0 <= s["excl"] <= s["total"]):
                     bad("C20_budget", k, "total %d excluded %d exceed budget %d + one step" % (s["total"], s["excl"], s["max"]))
             st[i] = s
-        if fails:
+        if len(fails) >= 4:
             break
     return fails
 
